@@ -1,1 +1,29 @@
-From Arche Require Import Model.Base.
+(** C16 - Type registry: stable bijection, dense ids.  Statements only; proofs in
+    Proofs/ResReg.v.  (The clause "all ids are usable" is the layout invariant of the
+    storage proof, Proofs/WorldInv.v; the reflection-based [isRelation] is tied to the
+    source by the correspondence run over eight type shapes, see DESIGN.md.) *)
+From Arche Require Import Model.Base Model.Pool Model.World Model.Ops Proofs.ResReg.
+
+Theorem C16_register : forall w key isrel zs,
+  reg_wf w ->
+  match step w (ORegister key isrel zs) with
+  | (w', Ok (VNat id), _) =>
+      reg_wf w' /\ (exists c, w_reg w' !! id = Some c /\ ci_key c = key) /\
+      (forall j c, w_reg w !! j = Some c -> w_reg w' !! j = Some c) /\
+      ((exists c, w_reg w !! id = Some c /\ ci_key c = key /\ w_reg w' = w_reg w) \/
+       (id = length (w_reg w) /\ key ∉ map ci_key (w_reg w) /\ w_reg w' = w_reg w ++ [mkCI key isrel zs]))
+  | (w', Panic, _) => w' = w /\ key ∉ map ci_key (w_reg w) /\ (length (w_reg w) = w_tb w \/ is_locked w = true)
+  | _ => False
+  end.
+Proof. exact registry_register. Qed.
+
+Theorem C16_injective : forall w i j ci cj,
+  reg_wf w -> w_reg w !! i = Some ci -> w_reg w !! j = Some cj -> ci_key ci = ci_key cj -> i = j.
+Proof. exact registry_injective. Qed.
+
+Theorem C16_stable : forall w o,
+  (forall k r z, o <> ORegister k r z) -> w_reg (fst (fst (step w o))) = w_reg w.
+Proof. exact registry_stable. Qed.
+
+Print Assumptions C16_register.
+Print Assumptions C16_stable.
